@@ -345,6 +345,19 @@ func c08Explore(r *vcore.Run, h c08Harness, bound int, futex bool, deadline time
 		}
 		e.epilogue()
 		if ok, why := e.linearizable(); !ok {
+			// a failure is believed only if the same schedule fails again (captured nondeterminism)
+			e2 := &c08Exec{h: h}
+			res2 := vsched.Run(choices, false, e2.body)
+			again := false
+			if res2.Failed == 0 {
+				e2.epilogue()
+				ok2, _ := e2.linearizable()
+				again = !ok2
+			}
+			if !again {
+				r.Violate("sched", "C08/HARNESS-ERROR/violation-not-reproducible/"+c08FP(h), hh, "the same schedule gives the same verdict", why)
+				return false
+			}
 			r.Violate("sched", "C08/"+c08FP(h)+"/not-linearizable", hh, "some real-time-respecting order is accepted by the reference model", why)
 			r.Outcome("not-linearizable")
 		} else {
